@@ -89,6 +89,28 @@ Section Transformer.
     end.
 End Transformer.
 
+(* the term nodes among the values on the parser's stack, left to right: the reductions whose callbacks have already run *)
+Fixpoint terms_in (nm : names) (t : tree) : list (str * Z) :=
+  let fix go (l : list tree) : list (str * Z) :=
+    match l with [] => [] | x :: r => terms_in nm x ++ go r end in
+  match t with
+  | TTok _ _ => []
+  | TInline kids => go kids
+  | TNode n kids =>
+      if Pos.eqb n (n_term nm) then match term_of nm t with Some x => [x] | None => [] end
+      else go kids
+  end.
+
+Definition reduced_terms (nm : names) (vals : list tree) : list (str * Z) :=
+  flat_map (terms_in nm) (rev vals).
+
+(* the first callback that raised: a KeyError from resolving a reduced term comes before the syntax error further right *)
+Fixpoint first_term_error (tab : symtab) (l : list (str * Z)) : option pres :=
+  match l with
+  | [] => None
+  | t :: r => match eval_term tab t with POk _ => first_term_error tab r | e => Some e end
+  end.
+
 (* Unit.parse at text level, in the model: scan, parse, read the terms off the tree, evaluate them *)
 Inductive text_outcome := TUnit (r : pres) | TSyntaxError | TShapeError.
 
@@ -100,7 +122,11 @@ Definition unit_parse_text (nm : names) (tab : symtab) (order : list terminal) (
       | Some (num, den) => TUnit (eval_unit tab num den)
       | None => TShapeError
       end
-  | _ => TSyntaxError
+  | _ =>
+      match first_term_error tab (reduced_terms nm (parse_failure_stack order ignore rules infos filtered terminals end_sym T (to_text s))) with
+      | Some PKeyError => TUnit PKeyError
+      | _ => TSyntaxError
+      end
   end.
 
 (* the text the printer writes for a term list parses back to exactly that term list *)
